@@ -340,7 +340,7 @@ pub fn batch(prop: &'static dyn Prop, tier: Tier, seed: u64) -> BatchResult {
     let n = std::env::var("VERIF_RUNS").ok().and_then(|s| s.parse().ok()).unwrap_or_else(|| prop.runs(tier));
     let wall_cap = Duration::from_secs(
         std::env::var("VERIF_WALL").ok().and_then(|s| s.parse().ok()).unwrap_or(match tier {
-            Tier::Quick => 150,
+            Tier::Quick => 300,
             Tier::Thorough => 1500,
         }),
     );
